@@ -8,6 +8,9 @@
     TemplatesRace.tla: first use of a cache map by 3 requesters with non-atomic map
     accesses: NoMapRace / BuiltOnce; the "prefix" variant (unlocked fast path) must
     violate NoMapRace.
+    TemplatesLayers.tla: a view build (view lock) overlapping a direct layout build
+    (layout lock), file by file: OwnFilesOnly / NoForeignFile; the "sharedloader" variant
+    (one loader object for all layers) must violate them.
 (R) every history TLC prints is executed on the real provider of that kind and cache
     setting over generated template files; after EVERY request every template handed
     out so far is inspected through its parse trees (not executed: an executed html
@@ -15,7 +18,9 @@
     handed out (as a caller does) and again at the end.  Layouts whose file does not parse
     (lbad): every request through them must fail, the first time and every time, cached or
     not (BadAlwaysFails; the "cachefail" variant that remembers the failed load must violate it).  Concurrent first use runs in a SUBPROCESS (a runtime map fault
-    kills the process): 16 goroutines released together x 300 trials on both providers."""
+    kills the process): 16 goroutines released together x 300 trials on both providers,
+    cached and uncached, asking for views AND directly for layouts; views of several files;
+    every template must hold exactly its own definitions (none of another view's)."""
 import json, subprocess
 import vlib
 
@@ -58,6 +63,11 @@ def run(ctx):
     ctx.cov['states'] -= rr['distinct']; ctx.cov['transitions'] -= rr['generated']
     if 'NoMapRace' not in rr['violated']:
         raise vlib.Infra('spec self-test failed: the unlocked fast path does not violate NoMapRace')
+    ctx.tlc_must_pass('templates', 'TemplatesLayers', 'MC_TemplatesLayers.cfg', workers=2, timeout=300, name='TemplatesLayers (a view build overlapping a direct layout build)')
+    rl = ctx.tlc('templates', 'TemplatesLayers', 'MC_TemplatesLayers_shared.cfg', workers=2, timeout=300, name='one loader shared by the layers (must violate NoForeignFile)')
+    ctx.cov['states'] -= rl['distinct']; ctx.cov['transitions'] -= rl['generated']
+    if not (set(rl['violated']) & {'NoForeignFile', 'OwnFilesOnly'}):
+        raise vlib.Infra('spec self-test failed: a loader shared by the layers keeps the templates apart')
     # concurrent first use in a subprocess
     exe = vlib.build_harness()
     trials = 300 if q else 3000
